@@ -361,6 +361,41 @@ theorem C10_gen_arm_frame {σ : Type} (a : Gen.ReqShape.Arm) (ha : a ∉ expecte
   revert ha
   cases a <;> decide +kernel
 
+/-- Path by path (`armPaths`: the alternatives of an `if/else` chain or of a `match` are separate paths): the
+    paths with a refusing statement after an effect, as (arm, index of the path, count).  The over-approximation of
+    `expectedLateArm` disappears for `root_SignCommitmentTx` (each of its two alternatives is in the discipline) and
+    the composite arms split into their three continuations: after the validation, the old-protocol revocation
+    (index 0: five checks and the refusing setter), `get_per_commitment_point` (index 1: one) and the activation of
+    the initial commitment (index 2: two). -/
+def expectedLatePaths : List (Gen.ReqShape.Arm × Nat × Nat) :=
+  [(.root_SignAnchorspend, 0, 4),
+   (.chan_ValidateCommitmentTx, 0, 6), (.chan_ValidateCommitmentTx, 1, 1), (.chan_ValidateCommitmentTx, 2, 2),
+   (.chan_ValidateCommitmentTx2, 0, 6), (.chan_ValidateCommitmentTx2, 1, 1), (.chan_ValidateCommitmentTx2, 2, 2),
+   (.chan_RevokeCommitmentTx, 0, 2)]
+
+def latePaths (a : Gen.ReqShape.Arm) : List (Gen.ReqShape.Arm × Nat × Nat) :=
+  ((Gen.ReqShape.armPaths a).zipIdx.filterMap (fun (p, i) =>
+    if ReqShape.lateChecks p = 0 then none else some (a, i, ReqShape.lateChecks p)))
+
+/-- **C10_gen_arm_paths** (generated obligation) -/
+theorem C10_gen_arm_paths : Gen.ReqShape.Arm.all.flatMap latePaths = expectedLatePaths := by
+  decide +kernel
+
+/-- every execution path of every arm that is not listed is in the discipline: a refused run along it returns
+    the state it started from -/
+theorem C10_gen_arm_path_frame {σ : Type} (a : Gen.ReqShape.Arm) (p : List ReqShape.Ev)
+    (hp : p ∈ Gen.ReqShape.armPaths a) (hl : ReqShape.lateChecks p = 0)
+    (chk : Nat → σ → Bool) (eff : Nat → σ → σ) (s : σ)
+    (hr : (exec (toStmts chk eff 0 p) s).2 = false) : (exec (toStmts chk eff 0 p) s).1 = s :=
+  let _ := hp
+  C10_shape_frame p chk eff s hl hr
+
+/-- both alternatives of `SignCommitmentTx` (the mutual-close workaround and the holder commitment) are in the
+    discipline -/
+theorem C10_gen_arm_paths_sign_commitment :
+    (Gen.ReqShape.armPaths .root_SignCommitmentTx).length = 2 ∧
+    ∀ p ∈ Gen.ReqShape.armPaths .root_SignCommitmentTx, ReqShape.lateChecks p = 0 := by decide +kernel
+
 theorem C10_gen_arm_all (a : Gen.ReqShape.Arm) : a ∈ Gen.ReqShape.Arm.all := by
   cases a <;> decide +kernel
 
@@ -370,6 +405,59 @@ theorem C10_gen_arm_all (a : Gen.ReqShape.Arm) : a ∈ Gen.ReqShape.Arm.all := b
 example : ReqShape.lateChecks (Gen.ReqShape.armEvs .root_AddBlock) = 0 ∧
     ReqShape.lateChecks [.mutate .map false, .mutate .tracker false, .persist .chan, .persist .tracker, .check, .check,
       .mutate .map false, .persist .chan] = 2 := by decide
+
+/-! #### `Handler::with_persist`: a refused request with stranded mutations aborts the signer
+
+The second sentence of the property ("a transactional store never ends a refused request with pending mutations")
+is enforced at run time by `Handler::with_persist` (handler.rs:173): it enters a persister transaction, runs the
+request, takes the pending mutations with `prepare()`, and *panics* if the request was refused while mutations are
+pending.  `Gen.ReqShape.withPersistForm` is only emitted when the source has exactly that form.  On the model: for a
+request in the discipline the abort is unreachable, and a refused request hands back an empty log. -/
+
+/-- what `with_persist` sees: the signer's state and the log of pending mutations (`prepare()` = its content) -/
+structure TxSt (μ : Type) where
+  st : μ
+  pending : Nat
+
+inductive WpRes | ok (muts : Nat) | err | panic
+  deriving DecidableEq, Repr
+
+/-- `with_persist(f)`: `enter()` starts an empty log, the request runs, `prepare()` reads the log;
+    `Ok(()) => Ok(muts)`, `Err(e) => { if !muts.is_empty() { panic!(..) } Err(e) }` -/
+def withPersist {μ : Type} (prog : List (Stmt (TxSt μ))) (s : μ) : TxSt μ × WpRes :=
+  let r := exec prog { st := s, pending := 0 }
+  if r.2 then (r.1, .ok r.1.pending)
+  else if r.1.pending = 0 then (r.1, .err) else (r.1, .panic)
+
+/-- **C10 (with_persist)**: a request in the validate-then-mutate discipline never reaches the "stranded
+    mutations" abort; when it is refused, state and log are what they were when the transaction was entered. -/
+theorem C10_with_persist {μ : Type} (prog : List (Stmt (TxSt μ))) (s : μ) (hd : checksFirst prog = true) :
+    (withPersist prog s).2 ≠ .panic ∧
+    ((exec prog { st := s, pending := 0 }).2 = false → withPersist prog s = ({ st := s, pending := 0 }, .err)) := by
+  unfold withPersist
+  cases hr : (exec prog { st := s, pending := 0 }).2 with
+  | true => simp [hr]
+  | false =>
+    have hf := C10_frame_general prog { st := s, pending := 0 } hd hr
+    simp [hr, hf]
+
+/-- … in particular for every state-changing arm of the protocol handler outside `expectedLateArm`, whatever its
+    checks test and its effects do (to the state or to the log) -/
+theorem C10_gen_arm_with_persist {μ : Type} (a : Gen.ReqShape.Arm) (ha : a ∉ expectedLateArm.map (·.1))
+    (chk : Nat → TxSt μ → Bool) (eff : Nat → TxSt μ → TxSt μ) (s : μ) :
+    (withPersist (toStmts chk eff 0 (Gen.ReqShape.armEvs a)) s).2 ≠ .panic := by
+  refine (C10_with_persist _ s ?_).1
+  apply late_false_checksFirst
+  revert ha
+  cases a <;> decide +kernel
+
+/-- the form of `with_persist` the model mirrors is the one in the source -/
+theorem C10_gen_with_persist_form : Gen.ReqShape.withPersistForm = true := rfl
+
+/-- the abort is reachable outside the discipline: a persist in front of a refusing check (the shape of seed
+    C10-r6-1: `self.persist()?` in front of `release_commitment_secret(..)?`) strands a mutation -/
+example : (withPersist (μ := Nat) [.effect (fun t => { t with pending := t.pending + 1 }), .check (fun _ => false)] 0).2 = .panic := by
+  decide
 
 /-! #### The node-request model has the extracted order
 
